@@ -173,6 +173,7 @@ const (
 	kBytes  paramKind = iota // string / []byte / sdk.AccAddress  -> Bytes
 	kU64                     // uint64 / int64                    -> Nat
 	kEnum                    // an enum with a String() table     -> named Lean inductive
+	kTime                    // time.Time (UTC calendar fields)    -> TimeF
 )
 
 type paramSpec struct {
@@ -287,6 +288,31 @@ func (t *bytesTranslator) expr(e ast.Expr, en env) (string, error) {
 					return "", err
 				}
 				return "(be64 " + n + ")", nil
+			case "sdk.FormatTimeBytes":
+				// sdk.FormatTimeBytes(t) = t.UTC().Round(0).Format(SortableTimeFormat): `Keys.fmtTime`
+				// (library function, differentially validated by the `tfmt` op of the C19 run)
+				if len(e.Args) != 1 {
+					return "", unsup("FormatTimeBytes arity")
+				}
+				x, err := t.timeArg(e.Args[0], en)
+				if err != nil {
+					return "", err
+				}
+				return "(fmtTime " + x + ")", nil
+			case "utils.EncodeTimeToKey":
+				// make+copy idiom, pinned by its statement listing (encodeTimeToKeyListing)
+				if len(e.Args) != 2 {
+					return "", unsup("EncodeTimeToKey arity")
+				}
+				a, err := t.expr(e.Args[0], en)
+				if err != nil {
+					return "", err
+				}
+				x, err := t.timeArg(e.Args[1], en)
+				if err != nil {
+					return "", err
+				}
+				return "(encodeTimeToKey " + a + " " + x + ")", nil
 			case "fmt.Sprintf":
 				f, err := t.p.constString(e.Args[0])
 				if err != nil {
@@ -305,6 +331,14 @@ func (t *bytesTranslator) expr(e ast.Expr, en env) (string, error) {
 				}
 				return "(" + strings.Join(parts, " ++ ") + ")", nil
 			}
+			// x.Bytes() on a byte-string parameter (sdk.AccAddress.Bytes() is the identity conversion)
+			if sel.Sel.Name == "Bytes" && len(e.Args) == 0 {
+				if id, ok := sel.X.(*ast.Ident); ok {
+					if ps, ok := en[id.Name]; ok && ps.kind == kBytes {
+						return lid(id.Name), nil
+					}
+				}
+			}
 			// x.String() on an enum parameter
 			if sel.Sel.Name == "String" && len(e.Args) == 0 {
 				if id, ok := sel.X.(*ast.Ident); ok {
@@ -317,6 +351,16 @@ func (t *bytesTranslator) expr(e ast.Expr, en env) (string, error) {
 		}
 	}
 	return "", unsup("expression %T", e)
+}
+
+// timeArg: a time.Time parameter passed on unchanged.
+func (t *bytesTranslator) timeArg(e ast.Expr, en env) (string, error) {
+	if id, ok := e.(*ast.Ident); ok {
+		if ps, ok := en[id.Name]; ok && ps.kind == kTime {
+			return lid(id.Name), nil
+		}
+	}
+	return "", unsup("time argument %T", e)
 }
 
 func selName(s *ast.SelectorExpr) string {
@@ -379,6 +423,12 @@ func (t *bytesTranslator) call(spec *fnSpec, args []ast.Expr, en env) (string, e
 			out += " " + x
 		case kU64:
 			x, err := t.num(a, en)
+			if err != nil {
+				return "", err
+			}
+			out += " " + x
+		case kTime:
+			x, err := t.timeArg(a, en)
 			if err != nil {
 				return "", err
 			}
@@ -597,6 +647,8 @@ func leanParamType(ps paramSpec) string {
 		return "Bytes"
 	case kU64:
 		return "Nat"
+	case kTime:
+		return "TimeF"
 	default:
 		return ps.leanType
 	}
